@@ -43,8 +43,16 @@ func (r *Result) ApplyBaseline(verifDir, rule, what string, perFn map[string][]u
 	}
 	if writeBaselines {
 		nb := baseline{}
+		// constructs recorded as known findings stay out of the baseline: they must keep being reported
+		known, _, _ := loadKnown(filepath.Join(verifDir, "known_findings.txt"))
 		for fn, items := range perFn {
-			if len(items) > 0 {
+			isKnown := false
+			for _, k := range known {
+				if k.Prop == r.Prop && k.Rule == rule && strings.HasPrefix(k.Construct, fn+"#") {
+					isKnown = true
+				}
+			}
+			if len(items) > 0 && !isKnown {
 				nb[fn] = len(items)
 			}
 		}
